@@ -144,22 +144,15 @@ class MinSumLDPCDecoder(BeliefPropagationDecoder):
                 signs = torch.sign(vc_group_messages)
                 magnitudes = torch.abs(vc_group_messages)
 
-                # 2. Compute output signs (XOR of input signs)
-                sign_product = torch.prod(signs, dim=2, keepdim=True)
-                output_signs = sign_product * signs  # Extrinsic sign
+                # ext_ce lists, for every edge of a check node, the *other* edges of that node,
+                # so row e of vc_group_messages already holds exactly the extrinsic inputs of
+                # edge e (as in compute_cv of the parent class); no further exclusion is needed.
 
-                # 3. Compute output magnitudes (min of input magnitudes)
-                # For each output, take min over all other inputs (extrinsic minimum)
-                min_magnitudes = torch.zeros_like(vc_group_messages)
-                for i in range(vc_group_messages.size(2)):
-                    # Create mask to exclude current position
-                    mask = torch.ones_like(vc_group_messages, dtype=torch.bool)
-                    mask[:, :, i] = False
+                # 2. Compute output signs (product of the extrinsic input signs)
+                output_signs = torch.prod(signs, dim=2)
 
-                    # Find minimum over other positions
-                    other_magnitudes = magnitudes.masked_select(mask).view(batch_size, deg * members, -1)
-                    min_vals, _ = torch.min(other_magnitudes, dim=2)
-                    min_magnitudes[:, :, i] = min_vals
+                # 3. Compute output magnitudes (minimum of the extrinsic input magnitudes)
+                min_magnitudes, _ = torch.min(magnitudes, dim=2)
 
                 # 4. Combine signs and magnitudes
                 v_messages = output_signs * min_magnitudes
